@@ -210,11 +210,13 @@ class Scn:
             flags.add("C12-D2-startup-key-case")
         elif cl == "empty":
             pairs = pairs[:2]
-            if rng.random() < 0.5:
-                pairs += [(b"application_name", b"")]
+            refused = rng.random() < 0.5
+            if refused:
+                pairs += [(b"application_name", b"")]          # odd number of strings left: ClientBadStartup
             else:
                 pairs += [(b"application_name", b""), (b"client_encoding", b"")]
             flags.add("C12-D3-startup-empty-value")
+            return {"name": name, "pairs": pairs, "flags": flags, "alive": True, "txn": "I", "n": 0, "refused": refused}
         elif cl == "invalid":
             k = rng.choice(["client_encoding", "TimeZone", "DateStyle"])
             pairs = [p for p in pairs if p[0].decode().lower() != k.lower()]
@@ -281,7 +283,7 @@ class Scn:
 
     def gen_ops(self, nops):
         rng = self.rng
-        live = [c for c in self.clients if "C12-D3-startup-empty-value" not in c["flags"] or len(c["pairs"]) == 4]
+        live = [c for c in self.clients if not c.get("refused")]
         for _ in range(nops):
             holders = [c for c in self.clients if c["alive"] and c["txn"] != "I"]
             cands = [c for c in live if c["alive"] and (c["txn"] != "I" or len(holders) < self.pool_size)]
@@ -971,7 +973,18 @@ def check(run):
         run.broken.append("%d of %d scenarios were inconclusive twice (a scripted recv did not reach ReadyForQuery)" % (inconclusive, len(scns)))
     run.log("scenarios=%d client messages=%d sync batches=%d distinct=%d" % (evals, dist["client_messages"], dist["sync_batches"], len(distinct)))
 
-    if const_bad:
+    if (first_tie or const_bad) and not run.violations:
+        # widened monitor search (no model involved) before a tie break is reported without a failing input
+        extra = [Scn(rng, 1 if rng.random() < 0.6 else 2, rng.choice([2, 3]), rng.randint(8, 18)) for _ in range(300)]
+        eo, _ = run_batch(run, wire, extra, "c12_w", with_model=False)
+        for s2, o2 in zip(extra, eo or []):
+            if o2.sane:
+                for kind, text, flags in monitors(s2, o2):
+                    classify(run, known, flags, kind, text, {"input": s2.describe(), "monitor": kind, "scenario": s2.to_json(),
+                                                               "after_tie_break": first_tie[1] if first_tie else const_bad})
+            if run.violations:
+                break
+    if const_bad and not run.violations:
         run.violation("tie-broken", "constants of src/server.rs differ from the model: " + "; ".join(const_bad),
                       {"correspondence": "TRACKED_PARAMETERS / ServerParameters::new / set_param vs coq/Params/Model.v", "detail": const_bad}, found_input=False)
     if first_tie and not run.violations:
